@@ -47,6 +47,12 @@ def run(chk):
     chk.call(r6_bonds_through_api, chk, cf)
     chk.call(r5_first_label_wins, chk, cf)
     chk.call(r4_plane_and_constitution, chk, cf)
+    # `_cdxml_3dify_` moves the two ends of a ring stereo bond through `substructure((a1, a2))` with one displacement per row: row 0 must
+    # be a1 and row 1 a2 whatever their positions in the atom list (the order clauses of C05.R5)
+    from . import c05
+
+    chk.borrow("C13.R7", c05.r5_views, chk, only=lambda o: o["construct"].endswith(":in-atom-order"))
+    chk.call(c05.view_keeps_caller_order, chk, "C13.R7")
 
 
 # ---------------------------------------------------------------------------
